@@ -499,8 +499,9 @@ def check_peer_classes(ctx: Ctx) -> None:
         ctx.ob('R13.1', 'process_peering_event: clean() is called with a local list of dead records', False, loc=f.loc(), construct=construct(f, 'table:dead-list'))
         return
     table_check(ctx, 'R13.1', f, paths, atoms, spec, observe,
-                what='process_peering_event (A.7): foreign object name => nothing; autoclean and dead records => clean; blocking peers => turn the '
-                     'pause toggle on if off, none => turn it off if on, no toggle => nothing; one interruptible sleep; self-touch iff it ran out and there were deadlines')
+                what='process_peering_event decision table A.7 (observed: clean?, turn_to, sleeps, self-touch?)')
+    ctx.notes.append('R13.1 table A.7: foreign object name => nothing; autoclean and dead records => clean; blocking peers => turn the pause toggle on if off, '
+                     'none => turn it off if on, no toggle => nothing; exactly one interruptible sleep; self-touch iff it ran out and there were deadlines')
 
 
 def _const(v: Optional[absint.V]) -> Any:
